@@ -8,7 +8,7 @@ def run(c):
               "scale the real data_model.GetTimescale builds: fine (step 0/1/5/10/15, dense events), coarse (steps 2/10/20/30/45/60/120/300/600/7200 "
               "incl. steps that are not LOD levels, served on a finer grid; at most one event per series and grid point) or two LODs (the query "
               "crosses the minute-table/second-table boundary); 1-3 expressions = trees of unary operators (sum/min/max/avg/count/group/stddev/"
-              "stdvar/quantile with by/without, topk/bottomk, *_over_time incl. quantile_over_time with matrix or subquery ranges of <1, 1, 2, 3 "
+              "stdvar/quantile with by/without (labels also repeated or given by another name of the same tag: canonical id <i>, legacy key<i> next to the custom name), topk/bottomk, *_over_time incl. quantile_over_time with matrix or subquery ranges of <1, 1, 2, 3 "
               "grid points, parentheses, `+ 0` rule breakers, optional __what__) and vector-vector binary operators (+ - * / == > < >= <= with "
               "default, on(..) and ignoring(..) one-to-one matching; half of them agg by (L) (x op x | agg without () (x) | ..) op agg by (L) (..)), "
               "each run through the real Engine; cases that leave float64's exact domain, depend on a weight tie or on a scalar-left comparison tie "
@@ -58,7 +58,7 @@ META = {
              "pushed_query_is_aggregate, reduction_sound_sum) for what in sum/sumsec/count/countsec/min/max, avg as sum/count; stdvar/stddev are "
              "excluded with a witness (stdvar_pushdown_is_not_population: pushed-down = 2x the population variance for two points). "
              "(4) binary operators: a vector matched one-to-one against itself loses no series, every result stems from a left/right pair with "
-             "equal matching label sets. The model is tied to the code by diffing every result point of generated expressions run through the real "
+             "equal matching label sets; grouping (engine-side and pushed-down) depends only on the set of resolved tag indices (groupKey_dedup, rule0_dedup). The model is tied to the code by diffing every result point of generated expressions run through the real "
              "engine on time scales built by the real GetTimescale; direct oracles: def-* (big.Rat definitions), def-*-numeric (outside the exact "
              "domain, relative tolerance), reduce-* (pushed-down vs engine-side evaluation)."),
     "note": ("Still partial: over_time_is_definition is proved for uniform grids only (two-LOD grids: correspondence + oracle); the over-time push-down "
@@ -67,7 +67,7 @@ META = {
              "the weight function of topk are correspondence-only. Trusted: Lean kernel; the Handler stub (storage contract; it calls the real "
              "tsValues.merge/value); model in exact arithmetic (float rounding only through the numeric oracle stream); one time shift, no filters; "
              "binary operators one-to-one without bool/!=/set operators; histogram_quantile, predict_linear out of scope. Known finding: "
-             "stdvar/stddev_over_time push-down (sample vs population variance). Observation, NOT a C27 violation (binary comparisons are not among "
+             "stdvar/stddev_over_time push-down (sample vs population variance). Observation (not alarmed, not generated alone): the legacy alias key<i> WITHOUT the custom name is resolved by the storage query but not by the engine-side label hash (`sum by (key1) (m + 0)` groups by the tag yet drops it from the result, `without (key1)` does not exclude it), so pushed-down and engine-side results differ for it. Observation, NOT a C27 violation (binary comparisons are not among "
              "the property's operators) and not alarmed (cases regenerated): with the label-less scalar operand on the LEFT of an ordering comparison "
              "evalBinary's swapped operator table (GTR->LTE, GTE->LSS, LSS->GTE, LTE->GTR) differs from the mirrored operator on ties."),
     "design_ref": "DESIGN.md §6 C27",
